@@ -551,6 +551,7 @@ pub fn contexts() -> Vec<Ctx> {
         c("block-after-stmt", |e| Node::Block(vec![St::Expr(call("idf", vec![pad("p")]))], Some(b(e))), None, same),
         c("block-let-typed", |e| Node::Block(vec![St::Let("t".into(), Some("String".into()), e)], Some(b(id("t")))), None, same),
         c("block-assign", |e| Node::Block(vec![St::Let("t".into(), None, pad("p")), St::Assign("t".into(), e)], Some(b(id("t")))), None, same),
+        c("block-assign-first", |e| Node::Block(vec![St::Let("t".into(), None, pad("p"))], Some(b(Node::Block(vec![St::Assign("t".into(), e)], Some(b(id("t"))))))), None, same),
         c("list-first", |e| Node::List(vec![e, pad("b")], false), Some(|n| get_wrap(n, 0)), same),
         c("list-second", |e| Node::List(vec![pad("a"), e], false), Some(|n| get_wrap(n, 1)), same),
         c("list-single-trailing-comma", |e| Node::List(vec![e], true), Some(|n| get_wrap(n, 0)), same),
